@@ -89,13 +89,14 @@ def run(chk):
         "kernel/file-system semantics (a completed write() survives SIGKILL; O_CREAT/unlink/rmdir/readdir as POSIX) are assumptions of the model, sampled by the kill runs",
         "glibc stdio buffering (4096-byte buffer written when it overflows and at fclose, lost on SIGKILL) is an assumption; the theorems hold for every buffer size",
         "parson is abstracted: stream.json parses iff complete, 'finished' is one marker; the emulator side is the necessary condition emu_ok (json parses, finished, header, event tiling), the real ovniemu is run on every tree",
+        "translate/units/rtfs.py: copy_thread_to_final, move_thdir_step, move_thdir_to_final, try_clean_dir and write_evbuf of src/rt/ovni.c are rendered on every run into coq/Gen/RtFs_gen.v as syntax trees (statements in C order, loops, break/continue, assignments in conditions, && / ||); their meaning is the hand-written interpreter coq/Rt/RtFsPre.v (a store for locals, every libc call a primitive that logs the RtFsDefs.op and takes its result from the environment: one injected fault, file contents in 1024-byte freads, readdir orders); coq/Proofs/RtFsGenProofs.v ties the calls, diagnostics and aborts of the interpreted code to RtFsDefs' instruction lists; clang's AST and the Python printer are trusted",
         "extraction (ExtrOcamlBasic only) + OCaml 4.13 + oracle/rtfs_drv.ml",
         "power loss / durability (fsync) is out of scope: the property says the process is killed",
     ]
     chk.assumptions = ["the trace directories do not exist before the run and nobody else writes into them",
                        "distinct threads use distinct thread ids (their paths are disjoint); the model composes threads sequentially, concurrent runs are only compared per thread",
                        "a single SIGKILL of the whole process; no I/O error in the same run (that is C10)"]
-    chk.prove()
+    chk.translate_and_prove(["rtfs"])
 
     build = common.repo_build("hook")
     tl = R.tools(build)
